@@ -166,19 +166,25 @@ def reference_unitary(prog):
 
 
 def build_real(prog):
+    """prog may carry "pad": [front, back] - that many extra modes before / after the qubit modes which are
+    heralded on 0 photons directly on the circuit (like the herald modes of the library's own CZ)."""
     import lightworks as lw
     from lightworks import qubit
     n = prog["n"]
-    c = lw.Circuit(2 * n)
+    kf, kb = prog.get("pad", [0, 0])
+    c = lw.Circuit(kf + 2 * n + kb)
+    for m in list(range(kf)) + list(range(kf + 2 * n, kf + 2 * n + kb)):
+        c.herald(0, m)
     for name, q, kw in prog["gates"]:
         if name == "U":
-            c.add(lw.Unitary(make_unitary("haar", 2, kw["seed"])), 2 * q)
+            c.add(lw.Unitary(make_unitary("haar", 2, kw["seed"])), kf + 2 * q)
         elif name in ("Rx", "Ry", "Rz", "P"):
-            c.add(getattr(qubit, name)(kw["theta"]), 2 * q)
+            c.add(getattr(qubit, name)(kw["theta"]), kf + 2 * q)
         elif name == "SWAP":
-            c.add(qubit.SWAP((2 * q, 2 * q + 1), (2 * q + 2, 2 * q + 3)), 0)
+            a = kf + 2 * q
+            c.add(qubit.SWAP((a, a + 1), (a + 2, a + 3)), 0)
         else:
-            c.add(getattr(qubit, name)(**kw), 2 * q)
+            c.add(getattr(qubit, name)(**kw), kf + 2 * q)
     return c
 
 
